@@ -7,7 +7,7 @@ from ..facade_eval import SCSI_MOD
 from ..rt import *
 from ..standin import StandIn
 from ..values import *
-from .c03 import make_scsi_device, make_iscsi_device, marker_cmd
+from .c03 import make_scsi_device, make_iscsi_device, marker_cmd, slot, put, ident_leaves
 
 DEV_MOD = "pyscsi.pyscsi.scsi_device"
 ISCSI_MOD = "pyscsi.pyiscsi.iscsi_device"
@@ -17,7 +17,28 @@ def ext_calls(events):
     return [e for e in events if e["kind"] == "external-call"]
 
 
+def replug_compare_verdict(cmp_):
+    """("operands", names) when something other than same-field (recorded, fresh stat) pairs incl. the inode number is
+    compared; ("ok", replaced?) otherwise; None when nothing was compared"""
+    if not cmp_:
+        return None
+
+    def field(x):
+        return getattr(x, "stat_field", None) if isinstance(x, External) else None
+    names2 = [sorted(x.name if isinstance(x, External) else repr(x) for x in (e["a"], e["b"])) for e in cmp_]
+    same_pair = all(n[0].startswith("recorded-") and n[1].startswith("stat#") and field(e["a"]) == field(e["b"]) is not None
+                    for n, e in zip(names2, cmp_))
+    replaced = any(not e["equal"] for e in cmp_)
+    if same_pair and not replaced and not any(field(e["a"]) == "st_ino" for e in cmp_):
+        same_pair = False
+    if not same_pair:
+        return ("operands", names2)
+    return ("ok", replaced)
+
+
 def check(prog, run):
+    from .c03 import prime_layouts
+    prime_layouts(prog)
     I = prog.I
     run.explanation = ("SCSIDevice.execute / open / close / __exit__, ISCSIDevice.close / __exit__ and SCSI.__exit__ are abstractly "
                        "interpreted over stand-ins for open(), os.stat(), file.close() and sgio.execute that fork on every outcome "
@@ -31,16 +52,23 @@ def check(prog, run):
     ex = prog.func(DEV_MOD, "SCSIDevice", "execute")
     file = prog.rel(ex.module)
     npaths = 0
+    from .c03 import scsi_layout
+    if scsi_layout(prog)["ident"] is None:
+        run.violation("inode-recorded", "SCSIDevice.open records the node", "constructing the device (which opens it) keeps no value taken "
+                      "from a stat of the device path: a node that is replaced later cannot be told from the one that was opened",
+                      file, None, DEV_MOD + ":SCSIDevice.open")
+    else:
+        run.ok("inode-recorded", "SCSIDevice.open records the node")
     for detect, rw in ((True, False), (True, True), (False, False)):
         si = StandIn(prog, check_condition="never", close_fails="fork", stat_fails="fork").install()
         try:
             def t(detect=detect, rw=rw):
                 si.vanished = False
                 dev = make_scsi_device(prog)
-                dev.attrs["_detect_replugged"] = detect
-                dev.attrs["_read_write"] = rw
-                old = dev.attrs["_file"]
-                old_ino = dev.attrs["_ino"]
+                put(prog, dev, "detect", detect)
+                put(prog, dev, "read_write", rw)
+                old = slot(prog, dev, "handle")
+                old_ino = slot(prog, dev, "ident")
                 cmd, cdb, dout, din = marker_cmd(prog, 0, 8)
                 try:
                     I.call_function(ex, [dev, cmd], {}, None, _F())
@@ -85,6 +113,30 @@ def check(prog, run):
             if "os.stat" not in names:
                 run.violation("detection-on-probes-node", "SCSIDevice.execute detect=True", "replug detection never stats the device node", *where)
                 continue
+            # the replug test as execute() performs it (wherever the class keeps it): the device path itself is examined, what
+            # is compared is the recorded identity with a fresh stat, field by field, the inode number among them, and the
+            # node counts as replaced exactly when a compared field differs
+            first_stat = [c_ for c_ in calls if c_["name"] == "os.stat"][0]
+            if first_stat["args"][:1] != [slot(prog, dev, "file_name")] or len(first_stat["args"]) > 1 \
+                    or any(k != "follow_symlinks" or v is not True for k, v in first_stat["kwargs"].items()):
+                run.violation("replug-test-stats-device-path", "SCSIDevice.execute os.stat arguments",
+                              "the replug test examines os.stat(%s): that is not the node the device path currently leads to"
+                              % ", ".join([repr(a_) for a_ in first_stat["args"]] + ["%s=%r" % kv for kv in first_stat["kwargs"].items()]), *where)
+            else:
+                run.ok("replug-test-stats-device-path", "SCSIDevice.execute detect=True rw=%s" % rw, nontrivial=False)
+            cmp_ = [e for e in p.events if e["kind"] == "ext-compare"]
+            verdict = replug_compare_verdict(cmp_)
+            if verdict is not None:
+                acted = bool(closes or opens)
+                if verdict[0] == "operands":
+                    run.violation("replug-test-compares-inode", "SCSIDevice.execute replug test operands",
+                                  "compares %s, not the node's current inode with the recorded one" % verdict[1], *where)
+                elif verdict[1] is not acted:
+                    run.violation("replug-test-compares-inode", "SCSIDevice.execute replug test polarity",
+                                  "the handle is %s when the compared identity %s" % ("replaced" if acted else "kept",
+                                                                                       "differs" if verdict[1] else "is unchanged"), *where)
+                else:
+                    run.ok("replug-test-compares-inode", "SCSIDevice.execute identity %s rw=%s" % ("changed" if verdict[1] else "same", rw))
             if closes or opens:
                 # replug path
                 ok = True
@@ -98,7 +150,7 @@ def check(prog, run):
                 elif closes and "open" in names and names.index("open") < names.index(closes[0]["name"]):
                     run.violation("fresh-handle-opened", "SCSIDevice.execute replug order", "open happens before the stale handle is closed", *where)
                     ok = False
-                new = dev.attrs.get("_file")
+                new = slot(prog, dev, "handle")
                 if sg:
                     if sg[0]["args"][0] is old or sg[0]["args"][0] is not new:
                         run.violation("no-stale-handle", "SCSIDevice.execute replug",
@@ -111,7 +163,7 @@ def check(prog, run):
                 if opens and (new is old or not isinstance(new, External)):
                     run.violation("fresh-handle-opened", "SCSIDevice.execute replug handle", "self._file still holds the stale handle", *where)
                     ok = False
-                if opens and dev.attrs.get("_ino") is final["old_ino"] and not stat_failed:
+                if opens and slot(prog, dev, "ident") is final["old_ino"] and not stat_failed:
                     run.violation("inode-recorded", "SCSIDevice.execute replug", "the inode of the re-opened node is not recorded", *where)
                     ok = False
                 if ok:
@@ -131,9 +183,10 @@ def check(prog, run):
                 si.node_gen = 0
                 si.closed = set()
                 dev = make_scsi_device(prog)
-                dev.attrs["_detect_replugged"] = True
-                dev.attrs["_ino"].inode_gen = 0
-                dev.attrs["_file"].opened_on_gen = 0
+                put(prog, dev, "detect", True)
+                for leaf in ident_leaves(slot(prog, dev, "ident")):
+                    leaf.inode_gen = 0
+                slot(prog, dev, "handle").opened_on_gen = 0
                 log = []
                 for i in range(ncmd):
                     if I.decide("the node is replaced before command %d" % (i + 1), None, _F()):
@@ -182,61 +235,14 @@ def check(prog, run):
     run.count("execute_paths", npaths)
     run.floor("execute paths", npaths, 3)
     run.floor("execute sequences (node replaced / open fails)", nseq, 20)
-    # _is_replugged compares the current inode of _file_name with _ino
-    isr = prog.func(DEV_MOD, "SCSIDevice", "_is_replugged")
-    si = StandIn(prog).install()
+    # the same test where the class keeps it in a method of its own (the pinned tree: SCSIDevice._is_replugged)
     try:
-        def t2():
-            dev = make_scsi_device(prog)
-            r = I.call_function(isr, [dev], {}, None, _F())
-            I.event("result", value=r)
-            return dev, [e for e in I.events if e["kind"] == "external-call"]
-        ps = I.explore(t2, max_paths=8)
-    finally:
-        si.remove()
-    outcomes = set()
-    for p in ps:
-        if p.returned:
-            dev, calls = p.value
-            r = p.path and None
-            cmp_ = [e for e in p.events if e["kind"] == "ext-compare"]
-            val = None
-            # the value returned on this path
-            val = getattr(p, "retval", None)
-            st = [c for c in calls if c["name"] == "os.stat"]
-            if len(st) != 1 or st[0]["args"][0] is not dev.attrs["_file_name"]:
-                run.violation("replug-test-stats-device-path", "SCSIDevice._is_replugged", "does not stat self._file_name", file, isr.node.lineno, isr.qualname)
-            elif len(st[0]["args"]) > 1 or any(k != "follow_symlinks" or v is not True for k, v in st[0]["kwargs"].items()):
-                # os.stat(path, *, dir_fd=None, follow_symlinks=True): anything else looks at something other than the node
-                # the path leads to (a symbolic link's own inode never changes when the device behind it is replaced)
-                run.violation("replug-test-stats-device-path", "SCSIDevice._is_replugged os.stat arguments",
-                              "the device path is examined with os.stat(%s): that is not the node the path currently leads to"
-                              % ", ".join(["path"] + ["%s=%r" % kv for kv in st[0]["kwargs"].items()]), file, isr.node.lineno, isr.qualname)
-    for p in ps:
-        if not p.returned:
-            continue
-        cmp_ = [e for e in p.events if e["kind"] == "ext-compare"]
-        res = [e for e in p.events if e["kind"] == "result"]
-        if len(cmp_) == 1 and res:
-            e = cmp_[0]
-            names2 = sorted(x.name if isinstance(x, External) else repr(x) for x in (e["a"], e["b"]))
-            same_pair = names2[0] == "recorded-ino" and names2[1].startswith("stat#")
-            replaced = not e["equal"]
-            said = I.static_truth(res[-1]["value"])
-            if not same_pair:
-                run.violation("replug-test-compares-inode", "SCSIDevice._is_replugged operands",
-                              "compares %s, not the node's current inode with the recorded one" % names2, file, isr.node.lineno, isr.qualname)
-            elif said is not replaced:
-                run.violation("replug-test-compares-inode", "SCSIDevice._is_replugged polarity",
-                              "reports %r when the inode %s" % (said, "changed" if replaced else "is unchanged"), file, isr.node.lineno, isr.qualname)
-            else:
-                run.ok("replug-test-compares-inode", "SCSIDevice._is_replugged inode %s" % ("changed" if replaced else "same"))
-    decided = [p.path for p in ps]
-    if len(ps) == 2 and any("!=" in d[0][0] or "==" in d[0][0] for d in decided if d):
-        run.ok("replug-test-stats-device-path", "SCSIDevice._is_replugged")
-    elif len(ps) < 2:
-        run.violation("replug-test-compares-inode", "SCSIDevice._is_replugged", "the result does not depend on the inode comparison", file,
-                      isr.node.lineno, isr.qualname)
+        isr = prog.func(DEV_MOD, "SCSIDevice", "_is_replugged")
+    except AnalysisError:
+        isr = None
+        run.notes.append("SCSIDevice has no _is_replugged method: the replug test is decided through execute() only")
+    if isr is not None:
+        check_is_replugged(prog, run, isr, file)
     # open(): mode and bookkeeping
     op = prog.func(DEV_MOD, "SCSIDevice", "open")
     for rw, mode in ((False, "rb"), (True, "w+b")):
@@ -244,7 +250,7 @@ def check(prog, run):
         try:
             def t3(rw=rw):
                 dev = make_scsi_device(prog)
-                dev.attrs["_read_write"] = rw
+                put(prog, dev, "read_write", rw)
                 I.call_function(op, [dev], {}, None, _F())
                 return dev, [e for e in I.events if e["kind"] == "external-call"]
             ps = I.explore(t3, max_paths=8)
@@ -258,10 +264,11 @@ def check(prog, run):
             dev, calls = p.value
             o = [x for x in calls if x["name"] == "open"]
             st = [x for x in calls if x["name"] == "os.stat"]
-            good = (len(o) == 1 and o[0]["args"][0] is dev.attrs["_file_name"] and (o[0]["args"][1:2] == [mode] or o[0]["kwargs"].get("mode") == mode)
-                    and isinstance(dev.attrs.get("_file"), External) and dev.attrs["_file"].name.startswith("file-handle#")
-                    and len(st) == 1 and st[0]["args"][0] is dev.attrs["_file_name"]
-                    and isinstance(dev.attrs.get("_ino"), External) and dev.attrs["_ino"].name.startswith("stat#"))
+            fname, handle, ident = slot(prog, dev, "file_name"), slot(prog, dev, "handle"), slot(prog, dev, "ident")
+            good = (len(o) == 1 and o[0]["args"][0] is fname and (o[0]["args"][1:2] == [mode] or o[0]["kwargs"].get("mode") == mode)
+                    and isinstance(handle, External) and handle.name.startswith("file-handle#")
+                    and len(st) == 1 and st[0]["args"][0] is fname
+                    and any(l.name.startswith("stat#") and l.name.endswith(".st_ino") for l in ident_leaves(ident)))
             if good:
                 run.ok("open-bookkeeping", c, {"mode": mode})
             else:
@@ -284,7 +291,7 @@ def check(prog, run):
                 run.violation("constructor-arguments", label, "raises %s" % p.raised.describe(), file, dcls.node.lineno, dcls.qualname)
                 continue
             d = p.value
-            got = (d.attrs.get("_read_write"), d.attrs.get("_detect_replugged"), d.attrs.get("_buffering"))
+            got = (slot(prog, d, "read_write"), slot(prog, d, "detect"), slot(prog, d, "buffering"))
             opens = [e for e in p.events if e["kind"] == "external-call" and e["name"] == "open"]
             mode = opens[0]["args"][1] if opens and len(opens[0]["args"]) > 1 else None
             if got == want and mode == ("w+b" if want[0] else "rb"):
@@ -359,3 +366,66 @@ def check(prog, run):
             run.ok("enter-returns-self", "%s.__enter__" % cn)
         else:
             run.violation("enter-returns-self", "%s.__enter__" % cn, "__enter__ does not return the object", prog.rel(f.module), f.node.lineno, f.qualname)
+
+
+def check_is_replugged(prog, run, isr, file):
+    I = prog.I
+    si = StandIn(prog).install()
+    try:
+        def t2():
+            dev = make_scsi_device(prog)
+            r = I.call_function(isr, [dev], {}, None, _F())
+            I.event("result", value=r)
+            return dev, [e for e in I.events if e["kind"] == "external-call"]
+        ps = I.explore(t2, max_paths=8)
+    finally:
+        si.remove()
+    outcomes = set()
+    for p in ps:
+        if p.returned:
+            dev, calls = p.value
+            r = p.path and None
+            cmp_ = [e for e in p.events if e["kind"] == "ext-compare"]
+            val = None
+            # the value returned on this path
+            val = getattr(p, "retval", None)
+            st = [c for c in calls if c["name"] == "os.stat"]
+            if len(st) != 1 or st[0]["args"][0] is not slot(prog, dev, "file_name"):
+                run.violation("replug-test-stats-device-path", "SCSIDevice._is_replugged", "does not stat self._file_name", file, isr.node.lineno, isr.qualname)
+            elif len(st[0]["args"]) > 1 or any(k != "follow_symlinks" or v is not True for k, v in st[0]["kwargs"].items()):
+                # os.stat(path, *, dir_fd=None, follow_symlinks=True): anything else looks at something other than the node
+                # the path leads to (a symbolic link's own inode never changes when the device behind it is replaced)
+                run.violation("replug-test-stats-device-path", "SCSIDevice._is_replugged os.stat arguments",
+                              "the device path is examined with os.stat(%s): that is not the node the path currently leads to"
+                              % ", ".join(["path"] + ["%s=%r" % kv for kv in st[0]["kwargs"].items()]), file, isr.node.lineno, isr.qualname)
+    for p in ps:
+        if not p.returned:
+            continue
+        cmp_ = [e for e in p.events if e["kind"] == "ext-compare"]
+        res = [e for e in p.events if e["kind"] == "result"]
+        if cmp_ and res:
+            # every comparison pairs a field of the recorded identity with the same field of a fresh stat of the path; the
+            # inode number is among them unless an earlier field already differed
+            def field(x):
+                return getattr(x, "stat_field", None) if isinstance(x, External) else None
+            names2 = [sorted(x.name if isinstance(x, External) else repr(x) for x in (e["a"], e["b"])) for e in cmp_]
+            same_pair = all(n[0].startswith("recorded-") and n[1].startswith("stat#") and field(e["a"]) == field(e["b"]) is not None
+                            for n, e in zip(names2, cmp_))
+            replaced = any(not e["equal"] for e in cmp_)
+            if same_pair and not replaced and not any(field(e["a"]) == "st_ino" for e in cmp_):
+                same_pair = False
+            said = I.static_truth(res[-1]["value"])
+            if not same_pair:
+                run.violation("replug-test-compares-inode", "SCSIDevice._is_replugged operands",
+                              "compares %s, not the node's current inode with the recorded one" % names2, file, isr.node.lineno, isr.qualname)
+            elif said is not replaced:
+                run.violation("replug-test-compares-inode", "SCSIDevice._is_replugged polarity",
+                              "reports %r when the inode %s" % (said, "changed" if replaced else "is unchanged"), file, isr.node.lineno, isr.qualname)
+            else:
+                run.ok("replug-test-compares-inode", "SCSIDevice._is_replugged inode %s" % ("changed" if replaced else "same"))
+    decided = [p.path for p in ps]
+    if len(ps) >= 2 and any("!=" in d[0][0] or "==" in d[0][0] for d in decided if d):
+        run.ok("replug-test-stats-device-path", "SCSIDevice._is_replugged")
+    elif len(ps) < 2:
+        run.violation("replug-test-compares-inode", "SCSIDevice._is_replugged", "the result does not depend on the inode comparison", file,
+                      isr.node.lineno, isr.qualname)
